@@ -6,14 +6,19 @@
      expressions  ESig ELit ESized EFree ECast EBin ECmp EInv ESlice EIdx EConcat EZext ESext ETrunc ERed EIf ETmp ELoop
      targets      LSig (signal / struct field, @= and <<=)  LSlice  LIndex (constant, loop-variable or computed index)  LTmp
      statements   SAssign  SIf (any nesting)  SFor (constant bounds, any nesting; the loop variable ranges over the loop)
-   including the error outcomes of the evaluator.  The strong dependence ("no latch") is proved at block level and for
-   the design evaluator RTL/Design.v ((d), (e) below) but is not packaged as `sdep` of Sched.Block (the fixed-point
-   theorem accepted_schedule_fixed_point is therefore not instantiated here).  Not covered: blocks outside the
-   language (method calls, lists of signals indexed by a variable, <<= to struct signals, ...), for which the translator
-   returns None. *)
+   including the error outcomes of the evaluator.
+   (a)-(c) frame / dep and confluence (accepted_schedules_agree) with no footprint hypothesis;
+   (d)-(e) strong dependence ("no latch") at block level and for the design evaluator RTL/Design.v;
+   (f)     the fixed-point half: C01_rtl_accepted_schedule_fixed_point instantiates the fixed-point theorem of Sched with NO
+           sdep hypothesis, for designs satisfying the boolean certificate rtl_fixed_ok, on every pass along which no
+           block raises (a raising block returns the environment unchanged in rtl_run, so unconditional `sdep` is false;
+           Sched/CondFixed.v is the conditional form of topo_fixed_point, also allowing declared writes larger than the
+           real ones).
+   Not covered: blocks outside the language (method calls, ...), for which the translator returns None; designs with a
+   latch or with a block that reads back bits it writes itself fail the certificate of (f) (nsl_ok on the DECLARED reads). *)
 From Coq Require Import ZArith List Bool Arith Lia Permutation.
 Import ListNotations.
-From PV Require Import Base.Prelude Bits.BitsSpec RTL.Syntax RTL.Eval Sched.Block Sched.Confluence Sched.Accept RTL.Footprint RTL.FootprintSound RTL.FlowSound RTL.Design RTL.DesignProofs.
+From PV Require Import Base.Prelude Bits.BitsSpec RTL.Syntax RTL.Eval Sched.Block Sched.Confluence Sched.Accept RTL.Footprint RTL.FootprintSound RTL.FlowSound RTL.Design RTL.DesignProofs Sched.CondFixed RTL.RtlFixed.
 Open Scope Z_scope.
 
 (* (a) frame: a block changes only bits inside its syntactic write footprint (now, and after the clock edge) *)
@@ -111,6 +116,22 @@ Theorem C01_rtl_sim_tick_det (D : rdesign) Q Q1 Q2 e1 e2 : wf_shapes (rd_shapes 
   end.
 Proof. exact (sim_tick_obs_det D Q Q1 Q2 e1 e2). Qed.
 
+(* (f) the fixed-point half of C01 with NO sdep hypothesis.  d carries the declared footprints, progs the translated
+   bodies; the certificate rtl_fixed_ok (boolean) says: declared footprints cover the proved ones, every block assigns
+   signals with @= only, has no latch (everything it may write it definitely writes) and its exposed reads are declared
+   reads.  Then for every accepted schedule o and every environment e on which no block raises along the pass:
+   afterwards every block is at its fixed point, running the whole pass again changes no bit, and every other
+   accepted schedule computes the same environment.  (Sched/CondFixed.v: conditional form of topo_fixed_point; a
+   raising block stops the simulation, nothing is claimed for such passes.) *)
+Theorem C01_rtl_accepted_schedule_fixed_point (G : decls) (progs : nat -> list stmt) (d : design) :
+  wf_declsb G = true -> wf_design d = true -> sw_ok d = true -> nsl_ok d = true -> noinv_ok d = true ->
+  rtl_fixed_ok G progs d = true ->
+  forall o, sched_ok d o = true -> forall e, rtl_no_raise G progs d o e ->
+    (forall i, In i (ids d) -> fixed_under (Bd d (rtl_R G progs)) i (run_list (Bd d (rtl_R G progs)) o e)) /\
+    eqe (run_list (Bd d (rtl_R G progs)) o (run_list (Bd d (rtl_R G progs)) o e)) (run_list (Bd d (rtl_R G progs)) o e) /\
+    (forall o2, sched_ok d o2 = true -> eqe (run_list (Bd d (rtl_R G progs)) o2 e) (run_list (Bd d (rtl_R G progs)) o e)).
+Proof. exact (rtl_accepted_schedule_fixed_point G progs d). Qed.
+
 (* the table computed from signal shapes (first field most significant) is a legal declaration table *)
 Theorem C01_rtl_decls_of_wf T : wf_shapes T = true -> wf_declsb (decls_of T) = true.
 Proof. exact (decls_of_wf T). Qed.
@@ -146,6 +167,29 @@ Example C01_rtl_nonvacuous :
   writes_of exT (exProgs 1%nat) = [(1%nat, 4, 5); (1%nat, 5, 6); (1%nat, 6, 7); (1%nat, 7, 8)].
 Proof. vm_compute. repeat split; reflexivity. Qed.
 
+(* non-vacuity of (f): the design exD above is latch-free, satisfies the whole certificate, its order 0 1 2 is accepted,
+   and no block raises along that pass on the all-zero environment and on the all-one environment *)
+Example C01_rtl_fixed_point_nonvacuous :
+  wf_declsb (decls_of exT) = true /\ wf_design exD = true /\ sw_ok exD = true /\ nsl_ok exD = true /\ noinv_ok exD = true /\
+  rtl_fixed_ok (decls_of exT) exProgs exD = true /\ sched_ok exD [0; 1; 2]%nat = true /\
+  rtl_no_raise (decls_of exT) exProgs exD [0; 1; 2]%nat (fun _ => false) /\
+  rtl_no_raise (decls_of exT) exProgs exD [0; 1; 2]%nat (fun _ => true).
+Proof.
+  assert (K : forall e, (forall i, (i < 3)%nat -> rtl_okb (decls_of exT) (exProgs i)
+                              (run_list (Bd exD (rtl_R (decls_of exT) exProgs)) (firstn i [0; 1; 2]%nat) e) = true) ->
+                        rtl_no_raise (decls_of exT) exProgs exD [0; 1; 2]%nat e).
+  { intros e H s1 i s2 E. apply rtl_okb_sound.
+    destruct s1 as [|a [|b [|c s1]]]; cbn [app] in E.
+    - injection E as <- <-. exact (H 0%nat ltac:(lia)).
+    - injection E as <- <- <-. exact (H 1%nat ltac:(lia)).
+    - injection E as <- <- <- <-. exact (H 2%nat ltac:(lia)).
+    - exfalso. injection E as _ _ _ E. destruct s1; discriminate. }
+  split; [vm_compute; reflexivity|]. split; [vm_compute; reflexivity|]. split; [vm_compute; reflexivity|].
+  split; [vm_compute; reflexivity|]. split; [vm_compute; reflexivity|]. split; [vm_compute; reflexivity|].
+  split; [vm_compute; reflexivity|].
+  split; apply K; intros i Hi; destruct i as [|[|[|i]]]; try lia; vm_compute; reflexivity.
+Qed.
+
 Print Assumptions C01_rtl_exec_frame.
 Print Assumptions C01_rtl_exec_dep.
 Print Assumptions C01_rtl_run_block_dep.
@@ -158,5 +202,7 @@ Print Assumptions C01_rtl_mixed_schedules_agree.
 Print Assumptions C01_rtl_exec_sdep.
 Print Assumptions C01_rtl_sim_eval_comb_det.
 Print Assumptions C01_rtl_sim_tick_det.
+Print Assumptions C01_rtl_accepted_schedule_fixed_point.
+Print Assumptions C01_rtl_fixed_point_nonvacuous.
 Print Assumptions C01_rtl_decls_of_wf.
 Print Assumptions C01_rtl_nonvacuous.
